@@ -12,7 +12,7 @@ import numpy as np
 from hypothesis import strategies as st
 
 from vf.core import Prop, Outcome
-from vf import romodel, rosets, detmodel
+from vf import romodel, rosets, detmodel, opseq
 from vf.quiet import quiet
 
 DET_ATOMS = ['abs', 'norm2', 'square', 'exp', 'log', 'softplus', 'entropy', 'sumexp', 'pnorm', 'power']
@@ -292,6 +292,8 @@ class C09(Prop):
             return check_expfam(case)
         if case.get('kind') == 'reuse':
             return check_reuse(case)
+        if case.get('kind') == 'opseq':
+            return check_opseq(case)
         finish_late_rows(case)
         base, sched = case['base'], case['sched']
         labels = ['phases:%d' % sched['nphase'], 'obj:' + base['obj']['kind'], 'set_objects:' + sched['set_objects']]
@@ -379,7 +381,9 @@ def reuse_history(draw):
 
 @st.composite
 def c09_or_dro(draw):
-    k = draw(st.integers(0, 8))
+    k = draw(st.integers(0, 11))
+    if k >= 9:
+        return draw(opseq.opseq_case())
     if k <= 1:
         return draw(dro_history())
     if k == 2:
@@ -387,6 +391,76 @@ def c09_or_dro(draw):
     if k == 3:
         return draw(reuse_history())
     return draw(c09_case())
+
+
+def check_opseq(case):
+    """free-form API history (vf/opseq.py): every formulation call against the independent optimum of the model declared so far"""
+    model, sched = case['model'], case['sched']
+    conic = opseq.is_conic(model)
+    tol = 2e-4 if conic else 1e-6
+    nform = sum(1 for o in sched if o[0] == 'form')
+    labels = ['kind:opseq', 'opseq:forms:%d' % nform, 'opseq:obj:' + model['obj']['kind'], 'opseq:' + ('conic' if conic else 'lp')]
+    first_form = next(i for i, o in enumerate(sched) if o[0] == 'form')
+    decl_after = sorted(set(o[0] for o in sched[first_form:] if o[0] in ('dvar', 'rvar', 'ldr', 'adapt', 'set')))
+    labels += ['opseq:after_formulation:' + t for t in decl_after]
+    first_adapt = next((i for i, o in enumerate(sched) if o[0] == 'adapt'), None)
+    first_obj = next(i for i, o in enumerate(sched) if o[0] == 'obj')
+    late_rv = first_adapt is not None and any(o[0] == 'rvar' for o in sched[first_adapt:])
+    rv_after_obj = any(o[0] == 'rvar' for o in sched[first_obj:])
+    if late_rv:
+        labels.append('opseq:rvar_after_adapt')
+    if rv_after_obj:
+        labels.append('opseq:rvar_after_objective')
+    try:
+        recs = opseq.run(model, sched)
+    except Exception as ex:
+        from vf.core import rsome_frame
+        if rsome_frame(ex.__traceback__) is None:
+            raise
+        return Outcome.fail('opseq:raises:%s:%s' % (type(ex).__name__, rsome_frame(ex.__traceback__)),
+                            'a legitimate call sequence raises %r' % (ex,), labels)
+    compared = 0
+    nontrivial = False
+    scratch = None
+    for n_, rec in enumerate(recs):
+        ref, why = opseq.reference(model, rec)
+        if ref is None and why != 'infeasible':
+            labels.append('opseq:reference:' + why)
+            continue
+        where = 'formulation call %d of %d (%s, position %d)' % (n_ + 1, len(recs), rec['act'], rec['pos'])
+        if rec.get('nan'):
+            return Outcome.fail('opseq:coefficient_nan_pattern', where + ': ' + '; '.join(rec['nan'][:3]), labels)
+        if 'solve' in rec['act']:
+            if rec['first'] is not None and rec['value'] is not None and abs(rec['first'] - rec['value']) > 1e-7 * (1 + abs(rec['value'])):
+                return Outcome.fail('opseq:resolve_differs', where + ': solving twice gave %.9g then %.9g' % (rec['first'], rec['value']), labels)
+            if ref is None:
+                if rec['value'] is not None and not conic:
+                    return Outcome.fail('opseq:infeasible_model_solved', where + ': the declared model is infeasible, the history reports optimum %.9g '
+                                        '(status %s)' % (rec['value'], rec['status']), labels)
+                labels.append('opseq:infeasible')
+                continue
+            if rec['value'] is None:
+                if conic:
+                    labels.append('opseq:cone_solver_failed')
+                    continue
+                return Outcome.fail('opseq:no_solution', where + ': no solution (status %s), the declared model has optimum %.9g' % (rec['status'], ref), labels)
+            if abs(rec['value'] - ref) > tol * (1 + abs(ref)):
+                if scratch is None and n_ == len(recs) - 1:
+                    try:
+                        scratch = opseq.run(model, case['canonical'])[-1]['value']
+                    except Exception:      # noqa
+                        scratch = 'raises'
+                return Outcome.fail('opseq:history_vs_reference' + (':conic' if conic else ''),
+                                    where + ': the history gives %.9g, the model declared so far has optimum %.9g%s' % (
+                                        rec['value'], ref, '' if scratch is None else ' (the same calls in canonical order give %r)' % (scratch,)), labels)
+            compared += 1
+            nontrivial = nontrivial or abs(ref - model['obj']['f0'] * (1 if model['obj']['kind'] in ('min', 'minmax') else -1)) > 1e-9
+        if rec['dual'] is not None and ref is not None and abs(-rec['dual'] - ref) > 10 * tol * (1 + abs(ref)):
+            return Outcome.fail('opseq:dual_vs_reference', where + ': do_math(primal=False) solves to %.9g, the model declared so far has optimum %.9g' % (
+                -rec['dual'], ref), labels)
+    if compared == 0:
+        return Outcome.skip('opseq_nothing_compared', labels)
+    return Outcome.ok(nontrivial and (nform > 1 or late_rv or rv_after_obj or bool(decl_after)), labels)
 
 
 def check_reuse(case):
